@@ -64,10 +64,13 @@ UReq(e) ==
 UExit(e) ==
   /\ a # None
   /\ LET proceed == (~Checked \/ a.script.check = "ready") /\ a.args.input # "missing"
-         want    == (IF Checked THEN 1 ELSE 0) + (IF proceed THEN 1 ELSE 0) IN
-     /\ (IF a.args.input = "missing" THEN reqs <= want ELSE reqs = want)   \* the file may be opened before or after the state query
-     /\ (e.code = 0) = (proceed /\ a.script.print = "ok")
-     /\ e.code \in 0..255                          \* a normal exit (not a signal / timeout of the harness)
+         want    == (IF Checked THEN 1 ELSE 0) + (IF proceed THEN 1 ELSE 0)
+         normal  == /\ (IF a.args.input = "missing" THEN reqs <= want ELSE reqs = want)   \* the file may be opened before or after the state query
+                    /\ (e.code = 0) = (proceed /\ a.script.print = "ok")
+         \* a command line with an argument that is not key=value (outside the quantifier) may also be refused outright
+         refused == a.malformed /\ reqs = 0 /\ e.code # 0
+     IN /\ (normal \/ refused)
+        /\ e.code \in 0..255                          \* a normal exit (not a signal / timeout of the harness)
   /\ a' = None /\ UNCHANGED reqs
 (* ---- the single-exchange commands (status, cancel-job, get-job, purge-jobs, get-all-jobs) ---- *)
 OStart(e) == a' = e /\ reqs' = 0
